@@ -253,10 +253,20 @@ def stream_check(role, nextra):
         events += conn.handle_event(StreamDataReceived(data=frame(1, b"\x00\x00"), end_stream=fin_with_headers, stream_id=0))
         total = 0
         if not fin_with_headers and quic.closed is None:
+            # how the end of the stream arrives: alone, on the DATA frame, or on a DATA frame followed by a
+            # frame of an unknown (reserved / grease) type in the same delivery
             if sx.Bool("send_data"):
-                events += conn.handle_event(StreamDataReceived(data=frame(0, body1), end_stream=False, stream_id=0))
+                shape = sx.concretize(sx.Int("fin_shape", 0, 2))
+                piece = frame(0, body1)
+                if shape == 2:
+                    piece = piece + frame(0x21, b"")
+                events += conn.handle_event(StreamDataReceived(data=piece, end_stream=shape > 0, stream_id=0))
                 total = n1
-            events += conn.handle_event(StreamDataReceived(data=b"", end_stream=True, stream_id=0))
+                if shape == 0:
+                    events += conn.handle_event(StreamDataReceived(data=b"", end_stream=True, stream_id=0))
+            else:
+                tail = frame(0x21, b"") if sx.Bool("fin_on_unknown_frame") else b""
+                events += conn.handle_event(StreamDataReceived(data=tail, end_stream=True, stream_id=0))
         if blocked and quic.closed is None:
             peer_uni = 3 if is_client else 2
             events += conn.handle_event(StreamDataReceived(data=b"\x02\x00", end_stream=False, stream_id=peer_uni))
@@ -290,5 +300,5 @@ def obligations(tier):
         k = 3 if T else 2
         obs.append(Ob("C15.headers.%s" % kind, headers_check(kind, k), shims, [P + "validate_headers", P + "validate_%s" % {"request": "request_headers", "response": "response_headers", "trailers": "trailers", "push": "push_promise_headers"}[kind], P + "validate_header_name", P + "validate_header_value"], bounds="every list of %d headers, each either one of %d (name, value) constants (all pseudo-headers, content-length/transfer-encoding spellings) or a fully symbolic name of 1-2 bytes with a symbolic value of <= 2 bytes" % (k, sum(len(v) for _, v in MENU)), budget_s=3000 if T else 280, max_decisions=900))
     for role in ("client", "server"):
-        obs.append(Ob("C15.stream.%s" % role, stream_check(role, 2 if T else 1), shims, [P + "H3Connection.handle_event", P + "H3Connection._receive_request_or_push_data", P + "H3Connection._handle_request_or_push_frame", P + "H3Connection._check_content_length", P + "validate_headers"], bounds="required pseudo-headers plus 1 (quick) / 2 (thorough) arbitrary headers (menu or symbolic), FIN on HEADERS or after an optional DATA frame of 0-3 bytes and a lone FIN", stubs=["pylsqpack -> ideal QPACK", "QuicConnection -> recorder"], env=hm.patched_qpack, budget_s=1500 if T else 280, max_decisions=900))
+        obs.append(Ob("C15.stream.%s" % role, stream_check(role, 2 if T else 1), shims, [P + "H3Connection.handle_event", P + "H3Connection._receive_request_or_push_data", P + "H3Connection._handle_request_or_push_frame", P + "H3Connection._check_content_length", P + "validate_headers"], bounds="required pseudo-headers plus 1 (quick) / 2 (thorough) arbitrary headers (menu or symbolic), FIN on HEADERS or after an optional DATA frame of 0-3 bytes; the end of the stream arrives alone, on the DATA frame, on a DATA frame followed by an unknown-type frame, or on a lone unknown-type frame", stubs=["pylsqpack -> ideal QPACK", "QuicConnection -> recorder"], env=hm.patched_qpack, budget_s=1500 if T else 280, max_decisions=900))
     return obs
